@@ -20,7 +20,9 @@ META = {
             "full linearised system (algebraic identity over abstract operators; equation parsing, single-equation assembly and projections are stubs whose "
             "contracts are C05/C06). Tier B: numeric systems incl. grid-restricted primary equations and the default block-diagonal inverter. Mixed tiers -> 'other'.",
     "note": "non-commutative ring axioms as implemented by sympy's expand; projections satisfy P_p^T / P_s^T column selection (C05); inverter numerics are C37; "
-            "the cached permutation of the default inverter is reused across calls (out of the statement's scope: each generated system is fresh)",
+            "the sweep takes all splits of a generated system one after the other on the same EquationSystem, over two rounds (stored iterate / explicit "
+            "state), assembling and expanding twice each, so that state left behind by one reduction (cached permutation of the default inverter, stored "
+            "reduction) is exercised",
 }
 
 import itertools
@@ -59,6 +61,19 @@ def _algebra_case(pp, restricted):
 
         def __neg__(self):
             return Op(-self.e)
+
+        # in-place operators mutate the operand, as they do for numpy arrays and scipy matrices
+        def __isub__(self, o):
+            self.e = self.e - o.e
+            return self
+
+        def __iadd__(self, o):
+            self.e = self.e + o.e
+            return self
+
+        def __imul__(self, o):
+            self.e = self.e * (o.e if isinstance(o, Op) else o)
+            return self
 
         def transpose(self):
             return Op(sp.Symbol(str(self.e) + "T", commutative=False))
@@ -101,9 +116,12 @@ def _algebra_case(pp, restricted):
 
     es.projection_to = projection_to
     calls = []
+    states = []
+    STATE = object()
 
     def assemble(equations=None, state=None, **k):
         calls.append(tuple(equations))
+        states.append(state)
         key = equations[0]
 
         class Sliceable(Op):
@@ -142,9 +160,13 @@ def _algebra_case(pp, restricted):
     esmod.sps.vstack, esmod.np.concatenate = vstack, concat
     esmod.np.arange = lambda *a, **k: _Idx()
     try:
-        S, rhs = pp.ad.EquationSystem.assemble_schur_complement_system(es, ["p"], ["vp"], inverter=lambda M: inv)
+        S, rhs = pp.ad.EquationSystem.assemble_schur_complement_system(es, ["p"], ["vp"], inverter=lambda M: inv, state=STATE)
         xp = Op(nc("x_p"))
+        stored = [(o, o.e) for o in es._Schur_complement if isinstance(o, Op)]
+        given = [(o, o.e) for o in list(A.values()) + list(b.values()) + [inv, S, rhs, xp]]
         X = pp.ad.EquationSystem.expand_schur_complement_solution(es, xp)
+        frame_ok = all(o.e == e0 for o, e0 in stored + given)
+        X2 = pp.ad.EquationSystem.expand_schur_complement_solution(es, xp)
     finally:
         esmod.sps.vstack, esmod.np.concatenate, esmod.np.arange = old_vs, old_cc, old_ar
     out = []
@@ -177,6 +199,11 @@ def _algebra_case(pp, restricted):
             res_s = sp.expand(Ass * X.e - nc(bsn[0])).subs(Ass * PsT * inv.e, 1) if bsn else None
             out.append(("secondary rows (stacked) hold for the expanded solution (using A_ss Inv = I)", res_s is not None and sp.expand(res_s) == 0, str(res_s)[:300]))
     out.append(("every equation is assembled exactly once, one equation per call", sorted(calls) == sorted([("p",), ("s",)]), str(calls)))
+    out.append(("every single-equation assembly is evaluated at the state given by the caller", len(states) > 0 and all(st is STATE for st in states), str(states)))
+    out.append(("frame: expand_schur_complement_solution leaves the stored reduction (inverse, b_s, A_sp, prolongations), the reduced system and its argument unchanged",
+                frame_ok, "an operand was modified in place"))
+    out.append(("expand_schur_complement_solution is repeatable: a second expansion of the same reduced solution gives the same vector", sp.expand(X2.e - X.e) == 0,
+                str(sp.expand(X2.e - X.e))[:300]))
     # canary: with a wrong sign in the expansion the primary identity must fail
     Xbad = sp.expand(PpT * xp.e - PsT * inv.e * (b["s"].e - A["s"].e * PpT * xp.e)) if not restricted else None
     if Xbad is not None:
@@ -234,8 +261,14 @@ def _build(pp, rng, which, nonlinear):
     eq_s = d1 * s + c * t + dense(n, n) @ p - vec()
     eq_t = d2 * t - c * s + dense(n, n) @ p - vec()
     if nonlinear:
+        # the s-t coupling of the secondary equations is bilinear and vanishes at the start values s = t = 0: the secondary block is
+        # diagonal at the stored iterate and has 2x2 cell blocks at any later state
+        vals = es.get_variable_values(iterate_index=0)
+        vals[es.dofs_of([s, t])] = 0.0
+        es.set_variable_values(vals, iterate_index=0)
         eq_p = eq_p + pp.ad.Scalar(0.1) * p * p
-        eq_s = eq_s + pp.ad.Scalar(0.05) * s * s
+        eq_s = d1 * s + pp.ad.Scalar(0.3) * s * t + dense(n, n) @ p - vec() + pp.ad.Scalar(0.05) * s * s
+        eq_t = d2 * t - pp.ad.Scalar(0.3) * s * t + dense(n, n) @ p - vec()
     for nm, e in (("eq_t", eq_t), ("eq_p", eq_p), ("eq_s", eq_s)):
         e.set_name(nm)
         es.set_equation(e, list(sds), {"cells": 1})
@@ -249,42 +282,63 @@ def _sweep(rep, pp):
                    rule="md-grids with 0-2 fractures x linear / nonlinear seeded systems (3 variables, 3 equations set in mixed order) x splits: primary = {eq_p} with "
                         "{p}; primary = {eq_p, eq_s} with {p, s}; primary equation restricted to a subset of its grids with the primary variable on the same "
                         "grids; inverters: default (permuted block-diagonal) and dense; expanded solution compared with spsolve of the full system at 1e-9; "
-                        "nontrivial = secondary block non-empty; distinct by (grid, system, split, inverter)", bound="3 (quick) / 20 (thorough) systems per grid",
+                        "nontrivial = secondary block non-empty; distinct by (grid, system, split, inverter)", bound="2 (quick) / 20 (thorough) systems per grid and kind, each: 2 rounds x all splits x 2 inverters x 2 assemblies x 2 expansions on one EquationSystem",
                    exhaustive=False) as sw:
         import scipy.sparse.linalg as spla
 
+        # The splits of one generated system are taken one after the other on the SAME EquationSystem object, over two Newton-like rounds
+        # (round 0: stored iterate, with the s-t coupling of the nonlinear systems vanishing at the start values; round 1: an explicit
+        # `state` different from the stored iterate); every assembly and every expansion is done twice.  Nothing is reset in between:
+        # what a split leaves behind (cached permutation of the default inverter, stored reduction) must not affect the next one.
         for which in (0, 1, 2):
-            for it in range(3 if quick else 20):
+            for it in range(2 if quick else 20):
                 for nonlinear in (False, True):
                     with warnings.catch_warnings():
                         warnings.simplefilter("ignore")
                         mdg, es, (p, s, t) = _build(pp, rng, which, nonlinear)
-                        J, r = es.assemble()
-                        xfull = spla.spsolve(sps.csc_matrix(J), r)
                     sds = mdg.subdomains()
+                    N = es.num_dofs()
                     splits = [("eq_p | p", ["eq_p"], [p]), ("eq_p,eq_s | p,s", ["eq_p", "eq_s"], [p, s]), ("eq_s,eq_p | s,p (other order)", ["eq_s", "eq_p"], [s, p])]
                     if len(sds) > 1:
                         sub = sds[:1]
                         splits.append(("eq_p on the first subdomain | p on the first subdomain", {"eq_p": sub}, [v for v in p.sub_vars if v.domain in sub]))
-                    for desc, peq, pvar in splits:
-                        for invname in ("default", "dense"):
-                            inv = None if invname == "default" else (lambda M: sps.csr_matrix(np.linalg.inv(M.toarray())))
-                            sw.case((which, it, nonlinear, desc, invname), True, sample={"grid": which, "nonlinear": nonlinear, "split": desc, "inverter": invname})
-                            inp = {"grid": which, "nonlinear": nonlinear, "split": desc, "inverter": invname, "seed": rep.seed}
-                            try:
-                                with warnings.catch_warnings():
-                                    warnings.simplefilter("ignore")
-                                    es._secondary_block_permutation = {} if hasattr(es, "_secondary_block_permutation") else None
-                                    S, rhs = es.assemble_schur_complement_system(peq, pvar, inverter=inv) if inv else es.assemble_schur_complement_system(peq, pvar)
-                                    xp = spla.spsolve(sps.csc_matrix(S), rhs) if S.shape[0] > 1 else np.atleast_1d(rhs / S.toarray()[0, 0])
-                                    X = es.expand_schur_complement_solution(np.atleast_1d(xp))
-                            except Exception as e:  # noqa
-                                rep.violation("Schur reduction: admissible splits assemble, solve and expand", f"{desc.split('|')[0].strip()}: raises {type(e).__name__}", inputs=inp, detail=str(e)[:200])
-                                continue
-                            scale = 1 + np.max(np.abs(xfull))
-                            if X.shape != xfull.shape or not np.allclose(X, xfull, rtol=1e-8, atol=1e-9 * scale):
-                                rep.violation("Schur reduction: expanded reduced solution equals the solution of the full linearised system", desc.split("|")[0].strip(), inputs=inp,
-                                              detail=f"max diff {np.max(np.abs(X - xfull)) if X.shape == xfull.shape else 'shape'}")
+                        sub2 = sds[1:]
+                        splits.append(("eq_p on all but the first subdomain | p on the same subdomains", {"eq_p": sub2}, [v for v in p.sub_vars if v.domain in sub2]))
+                    for rnd in (0, 1):
+                        state = None if rnd == 0 else np.array([rng.uniform(0.5, 1.5) for _ in range(N)])
+                        with warnings.catch_warnings():
+                            warnings.simplefilter("ignore")
+                            J, r = es.assemble(state=state)
+                            xfull = spla.spsolve(sps.csc_matrix(J), r)
+                        scale = 1 + np.max(np.abs(xfull))
+                        for desc, peq, pvar in splits:
+                            for invname in ("default", "dense"):
+                                inv = None if invname == "default" else (lambda M: sps.csr_matrix(np.linalg.inv(M.toarray())))
+                                sw.case((which, it, nonlinear, rnd, desc, invname), True,
+                                        sample={"grid": which, "nonlinear": nonlinear, "round": rnd, "split": desc, "inverter": invname})
+                                inp = {"grid": which, "nonlinear": nonlinear, "round": rnd, "explicit_state": state is not None, "split": desc, "inverter": invname,
+                                       "seed": rep.seed, "history": "all earlier splits / rounds on the same EquationSystem"}
+                                sig = desc.split("|")[0].strip() + ("" if rnd == 0 else " (explicit state, after earlier assemblies)")
+                                for rep_no in (0, 1):
+                                    try:
+                                        with warnings.catch_warnings():
+                                            warnings.simplefilter("ignore")
+                                            kw = {"state": state} if state is not None else {}
+                                            if inv:
+                                                kw["inverter"] = inv
+                                            S, rhs = es.assemble_schur_complement_system(peq, pvar, **kw)
+                                            xp = spla.spsolve(sps.csc_matrix(S), rhs) if S.shape[0] > 1 else np.atleast_1d(rhs / S.toarray()[0, 0])
+                                            X = es.expand_schur_complement_solution(np.atleast_1d(xp).copy())
+                                            X_again = es.expand_schur_complement_solution(np.atleast_1d(xp).copy())
+                                    except Exception as e:  # noqa
+                                        rep.violation("Schur reduction: admissible splits assemble, solve and expand",
+                                                      f"{sig}{' [repeated assembly]' if rep_no else ''}: raises {type(e).__name__}", inputs=inp, detail=str(e)[:200])
+                                        break
+                                    for XX, what in ((X, ""), (X_again, " [second expansion of the same reduced solution]")):
+                                        if XX.shape != xfull.shape or not np.allclose(XX, xfull, rtol=1e-8, atol=1e-9 * scale):
+                                            rep.violation("Schur reduction: expanded reduced solution equals the solution of the full linearised system",
+                                                          sig + (" [repeated assembly]" if rep_no else "") + what, inputs=inp,
+                                                          detail=f"max diff {np.max(np.abs(XX - xfull)) if XX.shape == xfull.shape else 'shape'}")
                             # NOTE: assembled_equation_indices after the Schur assembly is not part of the statement (it is overwritten by the
                             # assembly of the secondary equations in the current code) and is deliberately not constrained here.
 
